@@ -11,8 +11,9 @@
      objects) were bit-for-bit unchanged by the call.  holds = all results equal /\ nothing mutated.
      Purity, determinism and layout independence hold of any Gallina model by construction; this part is TESTED.
    * CImport: `import kneeliverse` succeeded. *)
-From Coq Require Import ZArith List Bool String Arith.
-From Knee Require Import Model.Linking.
+From Coq Require Import ZArith List Bool Arith.
+From Coq Require Export String.   (* the generated case files write identifiers as "..."%string *)
+From Knee Require Export Model.Linking.
 Import ListNotations.
 
 Inductive case :=
